@@ -38,6 +38,7 @@ def run(index, tier="quick", seed=0) -> Result:
     _tables_and_domains(res, index)
     _uniform(res, index)
     _doi(res, index)
+    _dtype(res, index)
     from ..parallel import report as _copy1
     _copy1(res, index, lambda f: f['module'].startswith('coxeter.families'))
     return res
@@ -425,3 +426,37 @@ def _doi(res, index):
                         and "default_factory" in ast.unparse(s.value.func):
                     ok = True
     _verdict(res, ok, "DOI-1", "_KeyedDefaultDict.__missing__", f"{mod.relpath}", "self[key] = self.default_factory(key) with the requested key", "pattern not found")
+
+
+# --------------------------------------------------------------------------------------------- DTYPE-1
+def _dtype(res, index):
+    """DTYPE-1: integer parameters are in the documented domain (a=1, c=3, truncation=0, ...).  An array built from the
+    raw parameters without a dtype is an integer array for such calls; an in-place float update of it (`x += 1e-6`,
+    `x /= s`) raises numpy's casting TypeError instead of returning the documented solid.  Dataflow: tag 'maybe-int' on
+    np.array/asarray of raw parameters, kept by indexing and copies, dropped by any arithmetic that yields a new array."""
+    n = 0
+    for mname, m in sorted(index.modules.items()):
+        if not mname.startswith("coxeter.families"):
+            continue
+        for c in m.classes.values():
+            for meth in ("make_vertices", "get_shape"):
+                fn = c.methods.get(meth)
+                if fn is None:
+                    continue
+                it = Interp(index)
+                try:
+                    r = it.run_entry(fn, c)
+                except RecursionError:
+                    continue
+                n += 1
+                label = f"{c.name}.{meth}"
+                bad = [e for e in r["events"] if e.type == "int-inplace"]
+                if bad:
+                    e = bad[0]
+                    res.bad("DTYPE-1", f"{label}:{e.target}:{e.op}", e.where(), f"`{e.src()[:60]}` updates in place an array built from the raw parameters "
+                            "(np.array without dtype): for integer parameter values (documented: a=1, c=3, truncation=0 ...) numpy refuses the "
+                            "float result with a TypeError instead of returning the solid")
+                else:
+                    res.ok("DTYPE-1", label, nontrivial=False)
+    if n < 8:
+        raise AnalysisError(f"DTYPE-1 examined only {n} family methods")
